@@ -15,4 +15,3 @@ for p in "$prop" "$@"; do
  echo "== ./check $p quick on patched copy (expected: exit 0)"; VERIF_REPO=$d ./check $p quick 2>&1 | grep -E 'VIOLATION|KNOWN|violation:|broken:|exit|FRAMEWORK' | cut -c1-400 | head -10
 done
 git -C /repo worktree remove --force "$d"
-git checkout -q evidence/ 2>/dev/null
